@@ -9,7 +9,8 @@ import DuneVerif.Model.C06Life
 does not change what has to be delivered.  `ctor`: one of the round-two letters or an object history (statements
 K<n> N<s><k><m>[b] C<s><t> A<s><t> D<s> U<s> X<s> joined by '.'), executed with `lifeStep` (Model/C06Life.lean); a
 call is answered with the `maxBufferSize` of the object it is made on, which must point to the case's map (0; the
-decoy map is 1) and have a buffer of at least B items.
+decoy map is 1) and have a buffer of at least B items, and in the rank numbering of the user communicator the object's
+communicator descends from (0 = MPI_COMM_WORLD, 1 = reversed rank order: process q answers as rank P-1-q).
 
 answer: `r0{q:(idx:[items],..) q':(..) | <second call>} r1{..} ..` -/
 open DV DV.C06
@@ -93,6 +94,13 @@ structure Stmt where
   t : Nat := 0
   size : Option Nat := none
   map : Nat := 0
+  /-- the user communicator: 0 = MPI_COMM_WORLD, 1 = the communicator with the reversed rank order -/
+  user : Nat := 0
+
+/-- map letters: r the case's map, d the decoy map, both on MPI_COMM_WORLD; x, y the same on the reversed communicator -/
+def mapLetter? (m : Char) : Option (Nat × Nat) :=
+  if m == 'r' then some (0, 0) else if m == 'd' then some (1, 0) else if m == 'x' then some (0, 1)
+  else if m == 'y' then some (1, 1) else none
 
 def digit? (c : Char) : Option Nat := if '0' ≤ c ∧ c ≤ '9' then some (c.toNat - '0'.toNat) else none
 
@@ -114,13 +122,17 @@ def legacyLife (letter : String) (B : Nat) : Option String :=
 def parseStmt? (tok : String) : Option Stmt :=
   match tok.toList with
   | ['N', s, k, m] =>
-    if (k == 'M' || k == 'I') && (m == 'r' || m == 'd') then (digit? s).map fun s => { op := 'N', s, map := if m == 'r' then 0 else 1 }
+    if k == 'M' || k == 'I' then do
+      let s ← digit? s
+      let (map, user) ← mapLetter? m
+      some { op := 'N', s, map, user }
     else none
   | 'N' :: s :: k :: m :: rest =>
-    if (k == 'm' || k == 'i') && (m == 'r' || m == 'd') then do
+    if k == 'm' || k == 'i' then do
       let s ← digit? s
+      let (map, user) ← mapLetter? m
       let b ← number? rest
-      if b = 0 then none else some { op := 'N', s, size := some b, map := if m == 'r' then 0 else 1 }
+      if b = 0 then none else some { op := 'N', s, size := some b, map, user }
     else none
   | ['C', s, t] => do some { op := 'C', s := ← digit? s, t := ← digit? t }
   | ['A', s, t] => do some { op := 'A', s := ← digit? s, t := ← digit? t }
@@ -148,8 +160,8 @@ def parseLife? (ctor : String) (B : Nat) : Option (Nat × List Stmt) := do
 
 structure LifeRun where
   w : DV.C06.World
-  /-- buffer size of the object of every call made so far (in the order of `dirs`) -/
-  bufs : List Nat
+  /-- buffer size and user communicator of the object of every call made so far (in the order of `dirs`) -/
+  bufs : List (Nat × Nat)
 
 /-- runs the history; `none`: not a valid case -/
 def runLife (dflt B ncalls : Nat) (stmts : List Stmt) : Option LifeRun := do
@@ -157,16 +169,16 @@ def runLife (dflt B ncalls : Nat) (stmts : List Stmt) : Option LifeRun := do
     let o ← r.w.slots s
     if o.interface ≠ 0 || o.maxBufferSize < B || r.bufs.length ≥ ncalls then none
     let w ← DV.C06.lifeStep dflt r.w (.use s)
-    some { w, bufs := r.bufs ++ [o.maxBufferSize] : LifeRun }
+    some { w, bufs := r.bufs ++ [(o.maxBufferSize, r.w.origin o.comm)] : LifeRun }
   let r ← stmts.foldlM (fun (r : LifeRun) st =>
     match st.op with
-    | 'N' => (DV.C06.lifeStep dflt r.w (.construct st.s st.size st.map)).map ({ r with w := · })
+    | 'N' => (DV.C06.lifeStep dflt r.w (.construct st.s st.size st.map st.user)).map ({ r with w := · })
     | 'C' => (DV.C06.lifeStep dflt r.w (.copy st.s st.t)).map ({ r with w := · })
     | 'A' => (DV.C06.lifeStep dflt r.w (.assign st.s st.t)).map ({ r with w := · })
     | 'D' => (DV.C06.lifeStep dflt r.w (.destroy st.s)).map ({ r with w := · })
     | 'U' => (DV.C06.lifeStep dflt r.w (.use st.s)).map ({ r with w := · })
     | 'X' => call r st.s
-    | _ => none) { w := DV.C06.World.init, bufs := [] }
+    | _ => none) { w := DV.C06.World.init 2, bufs := [] }
   -- the calls no X statement placed are made on slot 0
   let r ← (List.range (ncalls - r.bufs.length)).foldlM (fun r _ => call r 0) r
   -- a communicator the class misuses would be a defect of the class, not of the case: report it loudly
@@ -207,8 +219,10 @@ def handle (line : String) : String :=
           let other := ranksOf (!fixed)
           " ".intercalate ((List.range P).map fun q =>
             "r" ++ toString q ++ "{" ++
-              " | ".intercalate ((dirs.toList.zip life.bufs).map fun (d, Bobj) =>
-                showRank Bobj (if d == 'f' || d == 'b' then same else other) q (d == 'f' || d == 'F')) ++ "}")
+              -- process q of MPI_COMM_WORLD is rank P-1-q of the reversed communicator
+              " | ".intercalate ((dirs.toList.zip life.bufs).map fun (d, Bobj, user) =>
+                showRank Bobj (if d == 'f' || d == 'b' then same else other) (if user = 1 then P - 1 - q else q)
+                  (d == 'f' || d == 'F')) ++ "}")
     | _, _, _, _, _, _, _ => "bad-op"
   | _ => "bad-op"
 
